@@ -39,6 +39,7 @@ type Frame struct {
 	activeWitEnv *loopEnv
 	activeWitLoop *loopInfo
 	specVars    map[string]SVal // extra identifiers visible to contract expressions of this frame
+	autoInv     []Clause // standing invariants of the parameters, carried through every loop of the top function
 	presiteName string // site label of this activation's assumed preconditions (skolem lookup)
 	visited  map[*ssa.Range]*Term // ghost visited set per map range at loop head
 	curKey   map[*ssa.Range]*Term
@@ -308,7 +309,7 @@ func (f *Frame) run(st *State, reach *Term) (*State, *Term, []Val) {
 				for _, rv := range x.Results {
 					vs = append(vs, f.get(rv))
 				}
-				f.runDefers(cur, r)
+				f.runDefers(cur, r, b)
 				rets = append(rets, retInfo{cond: r, st: cur, vals: vs})
 				terminated = true
 			case *ssa.Panic:
@@ -690,10 +691,14 @@ func (f *Frame) instr(st *State, r *Term, in ssa.Instruction) {
 	case *ssa.Call:
 		f.vals[x] = f.call(st, r, x, &x.Call)
 	case *ssa.Defer:
-		f.defers = append(f.defers, x)
-		if x.Block() != f.fn.Blocks[0] {
-			panic(unsupported("conditional defer"))
+		// deferred calls run at every return their block dominates; a defer inside a loop would
+		// have to run once per iteration and is outside the subset
+		for _, li := range f.loops {
+			if li.body[x.Block()] {
+				panic(unsupported("defer inside a loop"))
+			}
 		}
+		f.defers = append(f.defers, x)
 	case *ssa.RunDefers:
 		// handled at Return
 	case *ssa.Go, *ssa.Select, *ssa.Send, *ssa.MakeChan:
@@ -1205,9 +1210,12 @@ func (f *Frame) next(st *State, r *Term, x *ssa.Next) Val {
 	return TupleVal{okv, k, val}
 }
 
-func (f *Frame) runDefers(st *State, r *Term) {
+func (f *Frame) runDefers(st *State, r *Term, at *ssa.BasicBlock) {
 	for i := len(f.defers) - 1; i >= 0; i-- {
 		d := f.defers[i]
+		if d.Block() != at && !d.Block().Dominates(at) {
+			continue
+		}
 		f.call(st, r, d, &d.Call)
 	}
 }
